@@ -39,6 +39,9 @@ def _errors_from_string(value: str) -> list[tuple[int, str]]:
             pos = from_isodatetime(pos)
         if pos is None:
             raise ValueError(f'Missing position in "{val}"')
+        if not isinstance(pos, (int, datetime.time, datetime.datetime)):
+            # from_isodatetime() also understands durations
+            raise ValueError(f'Invalid position in "{val}"')
         items.append((int(code, 10), pos))
     return items
 
